@@ -130,9 +130,15 @@ func runKeySim(t *testing.T, tape *kernel.Tape, tier, dir string, keepLog bool) 
 			// be signable again if the un-acknowledged update was lost - allowed.)
 			lo := durable
 			if lo > first {
-				probe(step, first+basics.Round(rA%int(lo-first)), "after-reload-old")
+				hi := lo
+				if hi > last+1 {
+					hi = last + 1
+				}
+				probe(step, first+basics.Round(rA%int(hi-first)), "after-reload-old")
 			}
-			probe(step, lo+basics.Round(rB%int(last-lo+1)), "after-reload-later")
+			if lo <= last {
+				probe(step, lo+basics.Round(rB%int(last-lo+1)), "after-reload-later")
+			}
 		case f >= 80 && !dbFault: // storage error on the next key-update transaction
 			eff[0] = rFault
 			err := part.Store.Atomic(func(ctx context.Context, tx *sql.Tx) error {
@@ -156,8 +162,13 @@ func runKeySim(t *testing.T, tape *kernel.Tape, tier, dir string, keepLog bool) 
 				} else {
 					to = cur + basics.Round((rA/5)%(int(dil)*2+2))
 				}
+				// advancing beyond the end of the key's validity range is legal (the node keeps running after
+				// its keys expire): every round of the range is then in the past and must be unsignable
+				if to > last+basics.Round(2*dil+2) {
+					to = last + basics.Round(2*dil+2)
+				}
 				if to > last {
-					to = last
+					stat("advance_past_end")
 				}
 				ch := part.DeleteOldKeys(to, proto)
 				err := <-ch
@@ -186,17 +197,29 @@ func runKeySim(t *testing.T, tape *kernel.Tape, tier, dir string, keepLog bool) 
 				log.Add("advance to=%d cur=%d durable=%d err=%v", to, cur, durable, err != nil)
 				// immediately: every earlier round is dead, the current one is alive
 				if cur > first {
-					probe(step, cur-1, "after-advance-prev")
+					pr := cur - 1
+					if pr > last {
+						pr = last
+					}
+					probe(step, pr, "after-advance-prev")
 				}
-				probe(step, cur, "after-advance-cur")
+				if cur <= last {
+					probe(step, cur, "after-advance-cur")
+				}
 			case 1: // probe an earlier round
 				eff[1], eff[2] = rOp, rA
 				if cur > first {
-					probe(step, first+basics.Round(rA%int(cur-first)), "probe-old")
+					hi := cur
+					if hi > last+1 {
+						hi = last + 1
+					}
+					probe(step, first+basics.Round(rA%int(hi-first)), "probe-old")
 				}
 			case 2: // probe a later round (any up to last, across batch boundaries)
 				eff[1], eff[2] = rOp, rA
-				probe(step, cur+basics.Round(rA%int(last-cur+1)), "probe-later")
+				if cur <= last {
+					probe(step, cur+basics.Round(rA%int(last-cur+1)), "probe-later")
+				}
 			}
 		}
 		for j := 0; j < 4; j++ {
